@@ -34,12 +34,18 @@ pub fn set_now(f: Option<Box<dyn FnMut() -> Instant>>) {
 
 /// Consulted by `deadline_exceeded` when a deadline is present.
 pub(crate) fn clock_probe(deadline: Instant) -> Option<bool> {
-    CLOCK.with(|c| c.borrow_mut().as_mut().map(|f| f(deadline)))
+    // (`try_with`: inert, not a panic, when called while the thread is being torn down)
+    CLOCK
+        .try_with(|c| c.borrow_mut().as_mut().map(|f| f(deadline)))
+        .ok()
+        .flatten()
 }
 
 /// Consulted by `duration_to_deadline`.
 pub(crate) fn virtual_now() -> Option<Instant> {
-    NOW.with(|c| c.borrow_mut().as_mut().map(|f| f()))
+    NOW.try_with(|c| c.borrow_mut().as_mut().map(|f| f()))
+        .ok()
+        .flatten()
 }
 
 // ---- H2: compaction swap counter / repair switch ---------------------------
